@@ -51,9 +51,11 @@ def load_known():
 
 def match_known(known, prop, key, witness_class=None):
     for f in known.get("findings", []):
-        if f["property"] != prop or f["key"] != key:
+        if f["property"] != prop or key not in f["keys"]:
             continue
         if f.get("witness_class") is not None and witness_class is not None and f["witness_class"] != witness_class:
+            continue
+        if f.get("witness_prefix") is not None and witness_class is not None and not str(witness_class).startswith(f["witness_prefix"]):
             continue
         return f
     return None
@@ -111,7 +113,10 @@ def main(prop, meta):
     with ctx.Pool(nproc) as pool:
         unit_results = pool.map(_run_unit, [(prop, i, a.root, tier, None) for i in idxs], chunksize=1)
         # phase 2: obligations the fast stage left open, one task each (engine rebuilt in the worker: VCs are deterministic)
-        todo = [(prop, r["unit_idx"], a.root, tier, r["idx"]) for ur in unit_results if ur["ok"] for r in ur["results"] if r.get("partial")]
+        known0 = load_known()
+        def _listed(rid):
+            return match_known(known0, prop, rid.split("/", 1)[1] if "/" in rid else rid) is not None
+        todo = [(prop, r["unit_idx"], a.root, tier, r["idx"]) for ur in unit_results if ur["ok"] for r in ur["results"] if r.get("partial") and not _listed(r["id"])]
         if todo:
             second = pool.map(_run_unit, todo, chunksize=1)
             by = {}
